@@ -233,8 +233,9 @@ Theorem C10_wellformed_bspline_is_piecewise_polynomial : forall p knots k x,
          /\ bd1 (BBsp p knots k) x = peval (pderiv (bs_piece knots p k j)) x
          /\ bd2 (BBsp p knots k) x = peval (pderiv (pderiv (bs_piece knots p k j))) x.
 Proof. exact wf_bspline_piecewise. Qed.
+(* support of the modified class: [a, b] on level 1 (fix 7946b5e), the two neighbouring knots otherwise *)
 Theorem C10_restricted_modified_vanishes_outside_support : forall p knots idx a b level x,
-  rl_in_support knots idx x = false ->
+  rlm_in_support knots idx a b level x = false ->
   rlm_eval p knots idx a b level x = 0 /\ rlm_d1 p knots idx a b level x = 0 /\ rlm_d2 p knots idx a b level x = 0.
 Proof. exact rlm_outside. Qed.
 Print Assumptions C10_basis_is_piecewise_polynomial.
